@@ -83,6 +83,12 @@ Fixpoint regular (e : oexprR) (x : Rvec) : Prop :=
          | [] => True
          | a :: r => regular a (firstn (dsize P a) x) /\ rg r (skipn (dsize P a) x)
          end) ops x
+  | OPSO cs _ ents =>
+      (fix rg (l : list (nat * nat * oexprR)) : Prop :=
+         match l with
+         | [] => True
+         | (_, j, a) :: r => regular a (proj cs j x) /\ rg r
+         end) ents
   end.
 
 (* structural induction with the induction hypothesis for every block operand *)
@@ -101,11 +107,17 @@ Hypothesis Hflvec : forall a, Q a -> forall v, Q (OFLVec a v).
 Hypothesis Hbc : forall ops, Forall Q ops -> Q (OBroadcast ops).
 Hypothesis Hred : forall ops, Forall Q ops -> Q (OReduction ops).
 Hypothesis Hdiag : forall ops, Forall Q ops -> Q (ODiagonal ops).
+Hypothesis Hpso : forall cs rs ents, Forall (fun t : nat * nat * oexprR => Q (snd t)) ents -> Q (OPSO cs rs ents).
 Fixpoint oexpr_ind2 (e : oexprR) : Q e :=
   let all := fix go (l : list oexprR) : Forall Q l :=
                match l with
                | [] => Forall_nil Q
                | a :: r => Forall_cons a (oexpr_ind2 a) (go r)
+               end in
+  let all3 := fix go (l : list (nat * nat * oexprR)) : Forall (fun t : nat * nat * oexprR => Q (snd t)) l :=
+               match l with
+               | [] => Forall_nil _
+               | t :: r => Forall_cons t (match t as t0 return Q (snd t0) with (_, a) => oexpr_ind2 a end) (go r)
                end in
   match e with
   | OLeaf l => Hleaf l
@@ -121,6 +133,7 @@ Fixpoint oexpr_ind2 (e : oexprR) : Q e :=
   | OBroadcast ops => Hbc ops (all ops)
   | OReduction ops => Hred ops (all ops)
   | ODiagonal ops => Hdiag ops (all ops)
+  | OPSO cs rs ents => Hpso cs rs ents (all3 ents)
   end.
 End OInd.
 
@@ -364,11 +377,44 @@ Proof.
   induction 1 as [|a v ops' l' Hv _ IHl]; intros H; inversion H; subst; constructor; auto.
 Qed.
 
+(* ---------- ProductSpaceOperator: bookkeeping ---------- *)
+Definition ewt (cs rs : list nat) (t : nat * nat * oexprR) : Prop :=
+  let '(i, j, a) := t in
+  wt P a = true /\ (i < length rs)%nat /\ (j < length cs)%nat /\
+  dom P a = SV (nth j cs 0%nat) /\ ran P a = SV (nth i rs 0%nat).
+Lemma wt_pso cs rs ents : wt P (OPSO cs rs ents) = true <-> Forall (ewt cs rs) ents.
+Proof.
+  cbn [wt]. rewrite forallb_Forall. split; intros H; (eapply Forall_impl; [|exact H]); intros [[i j] a]; cbn beta iota.
+  - intros Ha. apply andb_prop in Ha as [Ha H5]. apply andb_prop in Ha as [Ha H4].
+    apply andb_prop in Ha as [Ha H3]. apply andb_prop in Ha as [H1 H2].
+    apply Nat.ltb_lt in H2, H3. apply space_eqb_eq in H4, H5. repeat split; assumption.
+  - intros (H1 & H2 & H3 & H4 & H5). apply Nat.ltb_lt in H2, H3.
+    rewrite H1, H2, H3, H4, H5, !space_eqb_refl. reflexivity.
+Qed.
+Lemma eval_pso_cons cs rs i j a r x :
+  eval P (OPSO cs rs ((i, j, a) :: r)) x = vadd (embed rs i (eval P a (proj cs j x))) (eval P (OPSO cs rs r) x).
+Proof. reflexivity. Qed.
+Lemma proj_len cs j (y : Rvec) : (j < length cs)%nat -> length y = list_sum cs -> length (proj cs j y) = nth j cs 0%nat.
+Proof. intros Hj Hy. apply (blin_len _ _ _ _ (blin_proj cs j Hj) Hy). Qed.
+Lemma embed_len rs i (v : Rvec) : (i < length rs)%nat -> length v = nth i rs 0%nat -> length (embed rs i v) = list_sum rs.
+Proof. intros Hi Hv. apply (blin_len _ _ _ _ (blin_embed rs i Hi) Hv). Qed.
+
+Lemma pso_len cs rs ents : Forall (fun t : nat * nat * oexprR => len_ok (snd t)) ents -> Forall (ewt cs rs) ents ->
+  forall y, length y = list_sum cs -> length (eval P (OPSO cs rs ents) y) = list_sum rs.
+Proof.
+  induction 1 as [|[[i j] a] r Ha _ IH]; intros Hw y Hy; [apply vconst_len|].
+  inversion Hw as [|? ? Hwa Hw']; subst. unfold ewt in Hwa; cbn beta iota in Hwa; destruct Hwa as (W1 & W2 & W3 & W4 & W5).
+  rewrite eval_pso_cons. unfold vadd. apply vmap2_len; [|apply IH; assumption].
+  apply embed_len; [exact W2|].
+  cbn [snd] in Ha. rewrite (Ha W1); [rewrite W5; reflexivity|].
+  rewrite W4. cbn [sdim]. apply proj_len; assumption.
+Qed.
+
 Lemma eval_len e : len_ok e.
 Proof.
   unfold len_ok.
   induction e as [l|a IHa b IHb|a IHa v|a IHa b IHb|a IHa b IHb|a IHa s|a IHa s|a IHa v|a IHa v|a IHa v
-                  |ops IH|ops IH|ops IH] using oexpr_ind2;
+                  |ops IH|ops IH|ops IH|cs rs ents IH] using oexpr_ind2;
     cbn [dom ran eval]; intros Hw y Hy.
   - apply leval_len; assumption.
   - cbn [wt] in Hw. apply andb_prop in Hw as [Hw Hr]. apply andb_prop in Hw as [Hw Hd]. apply andb_prop in Hw as [Ha Hb].
@@ -397,6 +443,8 @@ Proof.
   - (* Diagonal *)
     apply wt_diag in Hw as [_ Hb]. cbn [sdim] in *.
     apply (diag_len _ IH Hb y Hy).
+  - (* ProductSpaceOperator *)
+    apply wt_pso in Hw. cbn [sdim] in *. apply (pso_len cs rs ents IH Hw y Hy).
 Qed.
 
 (* "linear => self" is justified: a flagged-linear well-typed tree IS a bounded linear map *)
@@ -404,8 +452,8 @@ Lemma lin_blin e : is_lin e = true -> wt P e = true ->
   blin (sdim (dom P e)) (sdim (ran P e)) (eval P e).
 Proof.
   induction e as [l|a IHa b IHb|a IHa v|a IHa b IHb|a IHa b IHb|a IHa s|a IHa s|a IHa v|a IHa v|a IHa v
-                  |ops IH|ops IH|ops IH] using oexpr_ind2;
-    cbn [is_lin dom ran eval]; intros Hl Hw; try discriminate Hl.
+                  |ops IH|ops IH|ops IH|cs rs ents IH] using oexpr_ind2;
+    cbn [is_lin dom ran]; try cbn [eval]; intros Hl Hw; try discriminate Hl.
   - apply llin_blin; assumption.
   - cbn [wt] in Hw. apply andb_prop in Hl as [La Lb].
     apply andb_prop in Hw as [Hw Hr]. apply andb_prop in Hw as [Hw Hd]. apply andb_prop in Hw as [Ha Hb].
@@ -436,6 +484,19 @@ Proof.
     apply (diag_blin (eval P) dsz rsz ops).
     intros a Hin. rewrite forallb_forall in Hl. rewrite Forall_forall in IH, Hb.
     apply IH; auto. apply Hb; exact Hin.
+  - (* ProductSpaceOperator *)
+    apply wt_pso in Hw. cbn [sdim]. apply forallb_Forall in Hl.
+    induction IH as [|[[i j] a] r Ha _ IHr].
+    + apply blin_zero.
+    + inversion Hw as [|? ? Hwa Hw']; subst. unfold ewt in Hwa; cbn beta iota in Hwa; destruct Hwa as (W1 & W2 & W3 & W4 & W5).
+      inversion Hl as [|? ? La Hl']; subst. cbn beta iota in La. cbn [snd] in Ha.
+      apply (blin_ext _ _ (fun d => vadd ((fun y => embed rs i (eval P a (proj cs j y))) d)
+                                         (eval P (OPSO cs rs r) d))).
+      { intros d. symmetry. apply eval_pso_cons. }
+      apply blin_add; [|apply IHr; assumption].
+      apply (blin_comp _ (nth i rs 0%nat) _ (embed rs i) (fun y => eval P a (proj cs j y))); [|apply blin_embed; exact W2].
+      apply (blin_comp _ (nth j cs 0%nat) _ (eval P a) (proj cs j)); [apply blin_proj; exact W3|].
+      specialize (Ha La W1). rewrite W4, W5 in Ha. exact Ha.
 Qed.
 
 Lemma lin_sound e x : is_lin e = true -> wt P e = true -> length x = sdim (dom P e) ->
@@ -584,11 +645,63 @@ Proof.
     + constructor; [|exact I2]. unfold dpair. auto.
 Qed.
 
+Definition dentry (cs : list nat) (x : Rvec) (t : nat * nat * oexprR) : nat * nat * oexprR :=
+  let '(i, j, a) := t in (i, j, derivative P a (proj cs j x)).
+
+Lemma pso_dsound cs rs ents :
+  Forall (fun t : nat * nat * oexprR => dsound (snd t)) ents -> Forall (ewt cs rs) ents ->
+  forall x, length x = list_sum cs ->
+  forallb (fun t : nat * nat * oexprR => let '(_, j, a) := t in deriv_ok P a (proj cs j x)) ents = true ->
+  regular (OPSO cs rs ents) x ->
+  let Ds := map (dentry cs x) ents in
+  hdiff (list_sum cs) (list_sum rs) (eval P (OPSO cs rs ents)) x (eval P (OPSO cs rs Ds)) /\
+  blin (list_sum cs) (list_sum rs) (eval P (OPSO cs rs Ds)) /\
+  forallb (fun t : nat * nat * oexprR => let '(_, _, a) := t in is_lin a) Ds = true /\
+  Forall (ewt cs rs) Ds.
+Proof.
+  induction 1 as [|[[i j] a] r Ha _ IH]; intros Hw x Hx Hok Hreg.
+  - cbn. split; [apply hdiff_const; apply vconst_len|]. split; [apply blin_zero|]. split; [reflexivity|constructor].
+  - inversion Hw as [|? ? Hwa Hw']; subst. unfold ewt in Hwa; cbn beta iota in Hwa; destruct Hwa as (W1 & W2 & W3 & W4 & W5).
+    cbn [forallb] in Hok. apply andb_prop in Hok as [Oa Or].
+    destruct Hreg as [Ra Rr]. cbn [snd] in Ha.
+    assert (Hp : length (proj cs j x) = sdim (dom P a)) by (rewrite W4; cbn [sdim]; apply proj_len; assumption).
+    destruct (Ha (proj cs j x) W1 Hp Oa Ra) as (A1 & A2 & A3 & A4 & A5 & A6).
+    destruct (IH Hw' x Hx Or Rr) as (I1 & I2 & I3 & I4).
+    rewrite W4, W5 in A1, A2. cbn [sdim] in A1, A2.
+    cbn zeta. cbn [map dentry].
+    set (Da := derivative P a (proj cs j x)) in *.
+    assert (Hent : hdiff (list_sum cs) (list_sum rs) (fun y => embed rs i (eval P a (proj cs j y))) x
+                     (fun d => embed rs i (eval P Da (proj cs j d)))).
+    { apply (hdiff_comp _ (nth i rs 0%nat) _ (embed rs i) (fun y => eval P a (proj cs j y)) x
+               (embed rs i) (fun d => eval P Da (proj cs j d))).
+      - apply (hdiff_comp _ (nth j cs 0%nat) _ (eval P a) (proj cs j) x (eval P Da) (proj cs j)).
+        + apply (blin_hdiff _ _ _ _ (blin_proj cs j W3) Hx).
+        + exact A1.
+      - apply (blin_hdiff _ _ _ _ (blin_embed rs i W2)).
+        pose proof (eval_len a W1 (proj cs j x) Hp) as Hl. rewrite W5 in Hl. exact Hl. }
+    assert (Hbl : blin (list_sum cs) (list_sum rs) (fun d => embed rs i (eval P Da (proj cs j d)))).
+    { apply (blin_comp _ (nth i rs 0%nat) _ (embed rs i) (fun d => eval P Da (proj cs j d))); [|apply blin_embed; exact W2].
+      apply (blin_comp _ (nth j cs 0%nat) _ (eval P Da) (proj cs j)); [apply blin_proj; exact W3|exact A2]. }
+    split; [|split; [|split]].
+    + apply (hdiff_ext _ _ (fun y => vadd ((fun y => embed rs i (eval P a (proj cs j y))) y) (eval P (OPSO cs rs r) y)) _ _
+               (fun d => vadd ((fun d => embed rs i (eval P Da (proj cs j d))) d)
+                              (eval P (OPSO cs rs (map (dentry cs x) r)) d))).
+      { intros y. symmetry. apply eval_pso_cons. }
+      { intros d. symmetry. apply eval_pso_cons. }
+      apply hdiff_add; [exact Hent|exact I1].
+    + apply (blin_ext _ _ (fun d => vadd ((fun d => embed rs i (eval P Da (proj cs j d))) d)
+                                         (eval P (OPSO cs rs (map (dentry cs x) r)) d))).
+      { intros d. symmetry. apply eval_pso_cons. }
+      apply blin_add; [exact Hbl|exact I2].
+    + cbn [forallb]. rewrite A3, I3. reflexivity.
+    + constructor; [|exact I4]. unfold ewt. cbn beta iota. rewrite A5, A6. auto.
+Qed.
+
 Theorem deriv_sound e : dsound e.
 Proof.
   unfold dsound.
   induction e as [l|a IHa b IHb|a IHa v|a IHa b IHb|a IHa b IHb|a IHa s|a IHa s|a IHa v|a IHa v|a IHa v
-                  |ops IH|ops IH|ops IH] using oexpr_ind2;
+                  |ops IH|ops IH|ops IH|cs rs ents IH] using oexpr_ind2;
     intros x Hw Hx Hok Hreg.
   - (* leaf *) apply lderiv_sound; assumption.
   - (* OSum *)
@@ -798,6 +911,14 @@ Proof.
     + apply wt_diag. split; [apply F8; exact Hne|apply F5; exact Hb].
     + rewrite F1. reflexivity.
     + rewrite F2. reflexivity.
+  - (* OPSO *)
+    cbn [derivative deriv_ok] in *.
+    destruct (forallb (fun t : nat * nat * oexprR => let '(_, _, a) := t in is_lin a) ents) eqn:Hl.
+    { apply lin_sound; auto. }
+    cbn [orb] in Hok. pose proof Hw as Hw0. apply wt_pso in Hw. cbn [dom ran sdim] in *.
+    destruct (pso_dsound cs rs ents IH Hw x Hx Hok Hreg) as (H1 & H2 & H3 & H4).
+    unfold sound. ssplit; auto.
+    apply wt_pso. exact H4.
 Qed.
 
 
@@ -908,8 +1029,11 @@ Definition ex_tree : @oexpr R :=
        (OSum (OPProd (OLVec (OLeaf (LUf Ureciprocal 2)) [1; 2])
                      (OVecSum (ORVec (OLScal (OLeaf (LPow (SV 2) 3)) 3) [2; 1]) [1; 1]))
              (OComp (OReduction [OLeaf (LUf Usquare 2); OFLVec (OLeaf (LInner [2])) [1; 1]])
+                    (OComp (OPSO [2; 1]%nat [2; 1]%nat
+                                  [(0%nat, 0%nat, OLeaf (LUf Usquare 2)); (1%nat, 1%nat, OLeaf (LScale (SV 1) 3));
+                                   (0%nat, 0%nat, OLeaf (LAbs 2))])
                     (OComp (ODiagonal [OLeaf (LAbs 2); OLeaf (LScale (SV 1) 2)])
-                           (OBroadcast [OLeaf (LUf Usquare 2); OLeaf (LMat 2 [[1; 1]])])))).
+                           (OBroadcast [OLeaf (LUf Usquare 2); OLeaf (LMat 2 [[1; 1]])]))))).
 Lemma ex_premises :
   let P := PR ex_af ex_ad ex_dm ex_dm in
   wt P ex_tree = true /\ is_lin ex_tree = false /\ length [1; 2] = sdim (dom P ex_tree) /\
